@@ -697,7 +697,7 @@ package saml
 //@ requires[cfg] chain: forall(0, len(req.IDP.Intermediates), func(k int) bool { return req.IDP.Intermediates[k] != nil })
 //@ -- the form posts to the selected registered endpoint, only if that endpoint uses the POST binding, with the relay state unchanged
 //@ -- (C05: the response goes to the endpoint Validate selected, never to a location that appears only in the request)
-//@ ensures[C05,C06] form: err == nil ==> result.URL == req.ACSEndpoint.Location && req.ACSEndpoint.Binding == HTTPPostBinding && result.RelayState == req.RelayState
+//@ ensures[C05,C06,C14] form: err == nil ==> result.URL == req.ACSEndpoint.Location && req.ACSEndpoint.Binding == HTTPPostBinding && result.RelayState == req.RelayState
 
 //@ contract (*IdpAuthnRequest).WriteResponse
 //@ requires[cfg] idp: req.IDP != nil && req.IDP.Certificate != nil
@@ -758,6 +758,8 @@ package saml
 //@ -- dynamic string enters through url.QueryEscape; C13 (from the property and SAML bindings 3.4.4.1): the signed octets are
 //@ -- exactly SAMLRequest=esc(req)[&RelayState=esc(relayState)]&SigAlg=esc(method) - without any query the IdP endpoint
 //@ -- already carried - and they appear unchanged in the emitted query, followed by &Signature=
+//@ -- the browser is sent to the destination the request names (and, when signed, was signed for)
+//@ assert@call[C12,C13] Parse #1 (raw string) redirect_to_named_destination: raw == r.Destination
 //@ assert@store[C12] RawQuery #1 (stored string) uses rv *url.URL, requestStr strings.Builder unsigned_query:
 //@    len(sp.SignatureMethod) == 0 ==> stored == redirectQuery(rv.RawQuery, requestStr.String(), relayState)
 //@ assert@call[C12,C13] SignString #1 (ctx *dsig.SigningContext, content string) uses rv *url.URL, requestStr strings.Builder signed_octets:
@@ -895,6 +897,10 @@ package saml
 //@    result.ProtocolBinding == resultBinding && result.Version == "2.0" && result.Issuer != nil && result.Issuer.Value == spIssuer(sp) &&
 //@    result.NameIDPolicy != nil && result.NameIDPolicy.Format != nil && result.ForceAuthn == sp.ForceAuthn &&
 //@    result.RequestedAuthnContext == sp.RequestedAuthnContext && ns(result.IssueInstant) == ns(TimeNow())
+//@ -- the request owns what it points to: nothing another request (or a package variable) shares, so that what was signed
+//@ -- cannot change under it before it is emitted
+//@ ghost func allocatedHereBool(b *bool) bool
+//@ ensures[C12,C13] own_policy: err == nil ==> allocatedHereBool(result.NameIDPolicy.AllowCreate)
 //@ -- C13: when signing is configured, a POST-binding request is signed or the call fails
 //@ ensures[C13] signed: err == nil && len(sp.SignatureMethod) > 0 && binding == HTTPPostBinding ==> result.Signature != nil
 //@ -- nothing is changed after signing: the returned message is exactly the value that was signed
@@ -1232,3 +1238,36 @@ package saml
 //@ -- on success every such field holds what was decoded into its alias field (whichever statements do the copying,
 //@ -- and on every successful return: a return that skips one of the copies fails here)
 //@ assert@return[C15,C02] #each (rerr error) uses aValidUntil=aux.ValidUntil RelaxedTime, aCacheDuration=aux.CacheDuration Duration fields_from_their_aliases: rerr == nil ==> m.ValidUntil == time.Time(aValidUntil) && m.CacheDuration == time.Duration(aCacheDuration)
+
+//@ -- ------------------------------------------------------------------------------------------
+//@ -- Structural obligations (decided by go/types / the parsed declarations on every run; DESIGN.md 2.3).
+//@ -- What encoding/xml reads into and writes from these structs is assumed (dependency), and that assumption is relative
+//@ -- to their fields, field types and tags: the element an entry is created for, what is an attribute, what is omitted.
+//@ xmlshape[C01,C02,C03,C04] Response
+//@ xmlshape[C01,C02,C03,C04] Assertion
+//@ xmlshape[C01,C03] Issuer
+//@ xmlshape[C01,C02,C03,C04] Subject
+//@ xmlshape[C01,C02,C03,C04] SubjectConfirmation
+//@ xmlshape[C01,C02,C03,C04] SubjectConfirmationData
+//@ xmlshape[C01,C02,C03] Conditions
+//@ xmlshape[C03] AudienceRestriction
+//@ xmlshape[C03] Audience
+//@ xmlshape[C03] Status
+//@ xmlshape[C03] StatusCode
+//@ xmlshape[C01,C02] AuthnStatement
+//@ xmlshape[C05] AuthnRequest
+//@ xmlshape[C18] LogoutResponse
+//@ xmlshape[C01,C05,C08,C14,C15,C18] EntityDescriptor
+//@ xmlshape[C01,C12,C14,C15,C18] IDPSSODescriptor
+//@ xmlshape[C05,C06,C08,C14,C15] SPSSODescriptor
+//@ xmlshape[C01,C08,C15,C18] KeyDescriptor
+//@ xmlshape[C01,C08,C15,C18] KeyInfo
+//@ xmlshape[C01,C08,C15,C18] X509Data
+//@ xmlshape[C01,C08,C15,C18] X509Certificate
+//@ xmlshape[C12,C14,C15] Endpoint
+//@ xmlshape[C05,C06,C14,C15] IndexedEndpoint
+//@ -- the handlers the IdP hands out serve the IdP they were asked of, not a copy frozen when they were handed out
+//@ receiver[C05,C06] IdentityProvider.Handler pointer
+//@ receiver[C05,C06] IdentityProvider.ServeSSO pointer
+//@ receiver[C05,C06] IdentityProvider.ServeIDPInitiated pointer
+//@ receiver[C05,C06] IdentityProvider.ServeMetadata pointer
